@@ -6,8 +6,10 @@
    a result/error IQ is looked up among the pending requests, a get/set carrying a pending
    id is routed like any other packet; SendIQ refuses an id that is still awaiting its
    response, so an accepted request keeps its own entry until answered or cancelled).
-   An arriving IQ [resp] carries its id, a tag and [rreq] (true: get/set, false:
-   result/error); [result i v] / [request i v] build the two kinds.
+   An arriving IQ [resp] carries its id, a tag and its kind [rkind]: KResponse (type result
+   or error), KRequest (get or set), KOther (type missing or non-standard: "Result", "ERROR",
+   "foo", ... - the decoder hands such stanzas on); [rreq r] = true iff r is NOT a response.
+   [result i v] / [request i v] / [other i v] build the three kinds.
    One [act] is one atomic step of one goroutine; every theorem below is for EVERY
    schedule [l : list act] from the initial state: any number of concurrent requests with
    distinct or clashing ids, matching / duplicate / foreign responses, receivers reading or
@@ -146,8 +148,9 @@ Theorem C07_unmatched_then_ordinary : forall s i v,
   nth_error (routers s') k = Some {| r_iq := (result i v); r_pc := RDone |}.
 Proof. exact unmatched_response. Qed.
 
-(* a request (get/set) is never taken for a response: nothing in or read from any channel is
-   a request, and a goroutine routing a request never owns a pending request's channel *)
+(* only a result or error is ever taken for a response: nothing in or read from any channel is
+   a get/set or an IQ of missing / non-standard type ([rreq v = false]: v is a response), and a
+   goroutine routing such an IQ never owns a pending request's channel *)
 Theorem C07_request_never_delivered : forall l,
   let s := c_run c_init l in
   (forall c ch v, nth_error (chans s) c = Some ch -> (c_buf ch = Some v \/ In v (c_got ch)) -> rreq v = false) /\
@@ -155,14 +158,16 @@ Theorem C07_request_never_delivered : forall l,
      r_pc t = RStart \/ r_pc t = ROrd \/ r_pc t = RDone).
 Proof. exact reach_only_responses. Qed.
 
-(* a request with a clashing id (or any id) goes to the ordinary routes, once; the pending
-   table and every channel are left alone.  Holds in any state, whatever is pending. *)
-Theorem C07_request_routed_ordinarily : forall s i v,
+(* an IQ that is not a response - a get/set or one of missing / non-standard type - with a
+   clashing id (or any id) goes to the ordinary routes, once; the pending table and every
+   channel are left alone.  Holds in any state, whatever is pending. *)
+Theorem C07_request_routed_ordinarily : forall s r,
+  rreq r = true ->
   let k := length (routers s) in
-  let s' := c_run s [AArrive (request i v); ARouter k; ARouter k] in
-  chans s' = chans s /\ table s' = table s /\ ordinary s' = ordinary s ++ [request i v] /\
-  nth_error (routers s') k = Some {| r_iq := request i v; r_pc := RDone |}.
-Proof. exact request_routed. Qed.
+  let s' := c_run s [AArrive r; ARouter k; ARouter k] in
+  chans s' = chans s /\ table s' = table s /\ ordinary s' = ordinary s ++ [r] /\
+  nth_error (routers s') k = Some {| r_iq := r; r_pc := RDone |}.
+Proof. exact nonresponse_routed. Qed.
 
 (* clashing ids: a SendIQ whose id is still awaiting its response is refused - nothing is
    registered, routed or written, the request's slot never receives anything and is never
@@ -203,7 +208,8 @@ Proof. exact inv_reachable. Qed.
 
 (* Four SendIQ calls: ids 1, 2, then 1 again while the first is pending (refused: slot 2 stays
    empty, the first request keeps id 1), later 1 again after the answer (accepted: slot 3).
-   A get with the clashing id 1 arrives before the answer: ordinary routes, the entry stays.
+   A get and an IQ of non-standard type with the clashing id 1 arrive before the answer:
+   ordinary routes, the entry stays.
    Response (1,10) arrives twice, a second answer (1,11) with the same id and a foreign (9,12)
    arrive concurrently; request 2 is cancelled while its answer (2,13) is in flight.
    Slot 0 gets exactly result 1 10 and is closed; slot 1 is closed empty; slot 3 gets the
@@ -213,17 +219,18 @@ Example C07_example :
   let s := c_run c_init
     [ARegister 1; ARegister 2; ARegister 1;
      AArrive (request 1 7); ARouter 0; ARouter 0;
+     AArrive (other 1 8); ARouter 1; ARouter 1;
      AArrive (result 1 10); AArrive (result 1 11); AArrive (result 9 12);
-     ARouter 1; ARouter 2; ARouter 1; ARouter 3; ARouter 2; ARouter 1; ARecv 0; ARouter 3;
-     ACancel 1; AArrive (result 2 13); ARouter 4; ACancelDelete 1; ARouter 4; ARouter 4;
-     AArrive (result 1 10); ARouter 5; ARouter 5;
-     ARegister 1; AArrive (result 1 14); ARouter 6; ARouter 6; ARouter 6; ARecv 3; ARecv 2] in
+     ARouter 2; ARouter 3; ARouter 2; ARouter 4; ARouter 3; ARouter 2; ARecv 0; ARouter 4;
+     ACancel 1; AArrive (result 2 13); ARouter 5; ACancelDelete 1; ARouter 5; ARouter 5;
+     AArrive (result 1 10); ARouter 6; ARouter 6;
+     ARegister 1; AArrive (result 1 14); ARouter 7; ARouter 7; ARouter 7; ARecv 3; ARecv 2] in
   (panicked s, map (fun ch => (c_owner ch, c_got ch, c_buf ch, c_closed ch)) (chans s),
    ordinary s, table s, refused s, map r_pc (routers s), in_flight s)
   = (false,
      [(1, [result 1 10], None, true); (2, [], None, true); (1, [], None, false); (1, [result 1 14], None, true)],
-     [request 1 7; result 1 11; result 9 12; result 2 13; result 1 10], [], [2%nat],
-     [RDone; RDone; RDone; RDone; RDone; RDone; RDone], []).
+     [request 1 7; other 1 8; result 1 11; result 9 12; result 2 13; result 1 10], [], [2%nat],
+     [RDone; RDone; RDone; RDone; RDone; RDone; RDone; RDone], []).
 Proof. vm_compute. reflexivity. Qed.
 
 (* the hypothesis of C07_early_response_any_time is satisfiable by a non-trivial schedule:
